@@ -138,7 +138,7 @@ func isPlainRegular(st *types.Stat) bool {
 }
 
 // judgeC02 checks the last sync of a history.
-func judgeC02(h History) (string, string) {
+func judgeC02Raw(h History) (string, string) {
 	o, _, e := runHistory(h, true)
 	if e == "inapplicable" {
 		return "", ""
@@ -332,4 +332,14 @@ func replayC02(raw json.RawMessage) string {
 		return ""
 	}
 	return key + ": " + msg
+}
+
+// judgeC02 is judgeC02Raw with a panic of the code under test turned into a verdict (never a crash of the check).
+func judgeC02(h History) (k, m string) {
+	defer func() {
+		if r := recover(); r != nil {
+			k, m = "panic", fmt.Sprintf("the code under test panicked: %v", r)
+		}
+	}()
+	return judgeC02Raw(h)
 }
